@@ -11,7 +11,7 @@ from harness.procworker import model_by_id, probe
 from translate import libio as t_libio, wrapper as t_wr, gatecode as t_gc
 
 THEOREMS = ["C16_disciplines", "C16_invariant", "C16_no_crash", "C16_inplace_refuted", "C16_bypath_refuted", "C16_reentrant_structure",
-            "C16_compile_requires_model"]
+            "C16_rebuilds_empty_refuted", "C16_compile_requires_model"]
 TRUSTED = [
     "Coq 8.16.1 kernel/coqc; theorems closed under the global context",
     "partial: the process model Model/Proc.v (files as inodes, in-place overwrite modifies mapped pages, dlopen caches by path name, a "
@@ -51,36 +51,48 @@ def histories(ck):
         [("compile", 0, 0), ("compile", 1, 1), ("load", 0), ("load", 1), ("call", 2), ("call", 3), ("compile", 0, 1), ("call", 3), ("load", 1), ("call", 5)],
         [("load", 0)],
         [("compile", 0, None), ("compile", 1, None), ("call", 0), ("call", 1), ("call", 0)],
+        # compile() again on an existing instance: refused on a loaded handle (and nothing changes), allowed on an instance with a model
+        [("compile", 1, 0), ("load", 0), ("recompile", 1, 0), ("call", 1), ("load", 0), ("call", 2)],
+        [("compile", 0, 0), ("load", 0), ("recompile", 1, 1), ("call", 1), ("load", 1), ("call", 0)],
+        [("compile", 1, None), ("recompile", 0, 1), ("call", 0), ("load", 1), ("call", 1), ("recompile", 1, None), ("call", 1)],
+        [("compile", 0, 0), ("compile", 1, 1), ("recompile", 0, 1), ("load", 1), ("call", 2), ("call", 1), ("call", 0)],
+        [("recompile", 0, 0), ("load", 0)],
     ]
     out.extend(fixed)
     n = 24 if ck.tier == "quick" else 200
     for _ in range(n):
         L = rng.randrange(3, 6 if ck.tier == "quick" else 8)
-        ops, nh = [], 0
+        ops, kinds = [], []                  # kinds[h]: how handle h was made
         saved = set()
         for i in range(L):
-            choices = ["compile"] * 2 + (["load"] * 2 if saved else ["load"]) + (["call"] * 3 if nh else [])
+            choices = ["compile"] * 2 + (["load"] * 2 if saved else ["load"]) + (["call"] * 3 + ["recompile"] if kinds else [])
             c = rng.choice(choices)
             if c == "compile":
                 p = rng.choice([None, 0, 0, 1])
                 ops.append(("compile", rng.randrange(2), p))
                 if p is not None:
                     saved.add(p)
-                nh += 1
+                kinds.append("compile")
             elif c == "load":
                 p = rng.choice(sorted(saved)) if saved and rng.random() < 0.9 else rng.choice([0, 1])
                 ops.append(("load", p))
                 if p in saved:
-                    nh += 1
+                    kinds.append("load")
+            elif c == "recompile":
+                h = rng.randrange(len(kinds))
+                p = rng.choice([None, 0, 1])
+                ops.append(("recompile", h, p))
+                if kinds[h] == "compile" and p is not None:      # only an instance with a model writes the path
+                    saved.add(p)
             else:
-                ops.append(("call", rng.randrange(nh)))
+                ops.append(("call", rng.randrange(len(kinds))))
         out.append(ops)
     return out
 
 
 def run(ck: Check):
     ck.trusted = TRUSTED
-    ck.rule = ("histories over {compile(model, save to path p or not), load(p), call(handle)} with 2 models, 2 paths and word sizes 8 / 64: a "
+    ck.rule = ("histories over {compile(model, save to path p or not), load(p), call(handle), compile() again on an existing instance} with 2 models, 2 paths and word sizes 8 / 64: a "
                "fixed set of dangerous shapes (re-save over a loaded library, load after re-save, load of a missing path) plus random "
                "histories of length 3..5 (quick) / 3..7 (thorough), each executed in a fresh interpreter; outcome of every step (handle / "
                "which model's outputs / error / death of the process) compared with Model/Proc.run evaluated in the kernel; thread runs "
@@ -110,6 +122,9 @@ def run(ck: Check):
                               "path": None if o[2] is None else os.path.join(ck.scratch, f"h{hi}_p{o[2]}.so")})
             elif o[0] == "load":
                 steps.append({"op": "load", "path": os.path.join(ck.scratch, f"h{hi}_p{o[1]}.so"), "W": W})
+            elif o[0] == "recompile":
+                steps.append({"op": "recompile", "handle": o[1],
+                              "path": None if o[2] is None else os.path.join(ck.scratch, f"h{hi}_p{o[2]}.so")})
             else:
                 steps.append({"op": "call", "handle": o[1]})
         jobs.append({"kind_of_job": "history", "ops": steps})
@@ -120,16 +135,18 @@ def run(ck: Check):
             return f"OCompile {o[1]} {'None' if o[2] is None else '(Some ' + str(o[2]) + ')'}"
         if o[0] == "load":
             return f"OLoad {o[1]}"
+        if o[0] == "recompile":
+            return f"ORecompile {o[1]} {'None' if o[2] is None else '(Some ' + str(o[2]) + ')'}"
         return f"OCall {o[1]}"
     txt = ("From Coq Require Import List Arith. Import ListNotations.\nFrom TLX Require Import Gen.LibIO Model.Proc.\n"
            "Definition show (o : outcome) : nat * nat := match o with RHandle h => (0, h) | RValue m => (1, m) | RCrash => (2, 0) | RError => (3, 0) end.\n"
-           "Eval vm_compute in [" + ";\n ".join("map show (run save_mode load_mode empty [" + "; ".join(opc(o) for o in ops) + "])" for ops in hs) + "].\n")
+           "Eval vm_compute in [" + ";\n ".join("map show (run save_mode load_mode recompile_mode empty [" + "; ".join(opc(o) for o in ops) + "])" for ops in hs) + "].\n")
     rc, out, err = ck.coq_eval("c16m", txt)
     preds = coqio.parse_evals(out)[0] if rc == 0 else None
     if preds is None:
         ck.broke("correspondence", "kernel evaluation of Model/Proc", err[-500:])
     for hi, (ops, res) in enumerate(zip(hs, results)):
-        resaves = len([o for o in ops if o[0] == "compile" and o[2] is not None]) >= 2
+        resaves = len([o for o in ops if o[0] in ("compile", "recompile") and o[2] is not None]) >= 2
         case = {"history": [list(o) for o in ops], "W": [8, 64][hi % 2]}
         ck.case(case, nontrivial=resaves or len([o for o in ops if o[0] != "call"]) >= 2, kind="history")
         obs = []
